@@ -138,20 +138,20 @@ type curCase struct {
 
 // Result is what one worker (or the merged parent) has counted.
 type Result struct {
-	Evals       int64            `json:"evals"`
-	States      int64            `json:"states"`
-	Transitions int64            `json:"transitions"`
-	Traces      int64            `json:"traces"`
-	Outcomes    []uint64         `json:"outcomes"`
-	OutcomesCap bool             `json:"outcomes_cap"`
-	Samples     []interface{}    `json:"samples"`
-	Fails       []failRec        `json:"fails"`
-	FailCount   int64            `json:"fail_count"`
-	Notes       map[string]int64 `json:"notes"`
+	Evals       int64             `json:"evals"`
+	States      int64             `json:"states"`
+	Transitions int64             `json:"transitions"`
+	Traces      int64             `json:"traces"`
+	Outcomes    []uint64          `json:"outcomes"`
+	OutcomesCap bool              `json:"outcomes_cap"`
+	Samples     []interface{}     `json:"samples"`
+	Fails       []failRec         `json:"fails"`
+	FailCount   int64             `json:"fail_count"`
+	Notes       map[string]int64  `json:"notes"`
 	Texts       map[string]string `json:"texts"`
-	Capped      []string         `json:"capped"`
-	Flaky       []string         `json:"flaky"`
-	Done        bool             `json:"done"`
+	Capped      []string          `json:"capped"`
+	Flaky       []string          `json:"flaky"`
+	Done        bool              `json:"done"`
 }
 
 // W is the worker-side handle given to Check.Run.
